@@ -26,6 +26,8 @@ def run(ctx):
     r164(ctx, wr)
     r165(ctx, api)
     r166(ctx, ut)
+    from . import callsigs as _cs
+    _cs.general_rules(ctx, 'R16', ['writer.write', 'writer.update_file_custom_metadata', 'util.update_custom_metadata', 'writer.write_simple', 'writer.write_multi', 'writer.write_common_metadata', 'writer.consolidate_categories'])
 
 
 def _inplace_sites(repo):
@@ -217,6 +219,17 @@ def r163(ctx, wr):
         defs.get('size') == "int.from_bytes(f.read(4), 'little')"
     ctx.ob('R16.3', 'writer.update_file_custom_metadata:loc-is-4-or-end-minus-8-minus-size', ok,
            'loc in %s with %s' % (locs, defs), wr.loc(f))
+    auto = [s for s in iter_child_stmts(f.body) if isinstance(s, ast.If) and 'is_metadata_file is None' in norm(s.test)]
+    ok = len(auto) == 1
+    d = ''
+    if ok:
+        inner = [s for s in iter_child_stmts(auto[0].body) if isinstance(s, ast.If)]
+        tests = [norm(s.test) for s in inner] + [norm(s.value.test) for s in iter_child_stmts(auto[0].body)
+                                                 if isinstance(s, ast.Assign) and isinstance(s.value, ast.IfExp)]
+        d = str(tests)
+        ok = any(t in ("path[-9:] == '_metadata'", "path.endswith('_metadata')", "path.endswith('/_metadata')") for t in tests)
+    ctx.ob('R16.3', 'writer.update_file_custom_metadata:metadata-file-recognised-by-name-suffix', ok,
+           'a pure metadata file (thrift starts at byte 4) is recognised by the path *ending* in _metadata: %s' % d, wr.loc(f))
     opens = [c for k, c in fx.direct_effects(f) if k == 'OPEN']
     ctx.ob('R16.3', 'writer.update_file_custom_metadata:file-opened-for-update-not-truncation',
            len(opens) == 1 and fx.mode_of(opens[0]) in ('rb+', 'r+b'), str([fx.mode_of(o) for o in opens]), wr.loc(f))
